@@ -46,6 +46,33 @@ def _factory(bs):
     return R
 
 
+class _Minimal(object):
+    """read / seek / tell and nothing else."""
+
+    def __init__(self, fp):
+        self._fp = fp
+
+    def read(self, n=-1):
+        return self._fp.read(n)
+
+    def seek(self, off, whence=0):
+        return self._fp.seek(off, whence)
+
+    def tell(self):
+        return self._fp.tell()
+
+
+def _plain_reader():
+    from pydiffx import DiffXReader
+    return DiffXReader
+
+
+import io as _io
+STREAM_KINDS = [(-16, lambda fp: _io.BufferedReader(fp, buffer_size=16)), (-50, lambda fp: _io.BufferedReader(fp, buffer_size=50)),
+                (-97, lambda fp: _io.BufferedReader(fp, buffer_size=97)), (-200, lambda fp: _io.BufferedReader(fp, buffer_size=200)),
+                (-1, _Minimal)]
+
+
 def pad_file(data, p):
     """Shift everything after the first header by p bytes; returns (bytes, ins)."""
     h = data.index(b'#diffx')
@@ -119,6 +146,13 @@ def _work(args):
             key = repr(res)
             if key not in results:
                 results[key] = (bs, res)
+        # the same bytes through other kinds of stream: buffered readers (which offer peek()) with buffers smaller
+        # than the file, and a stream that has nothing but read / seek / tell
+        for label, wrap in STREAM_KINDS:
+            res = rdriver.read_bytes(padded, reader_factory=lambda fp, _w=wrap: _plain_reader()(_w(fp)))
+            key = repr(res)
+            if key not in results:
+                results[key] = (label, res)
         out.append((p, ins, padded, list(results.values())))
     return out
 
